@@ -56,7 +56,7 @@ def main(argv=None):
     try:
         results = []
         nk = sum(1 for m in mods if m.TOOL == "kani") or 1
-        kjobs = max(2, a.jobs // nk)
+        kjobs = max(4, a.jobs // 2)      # harness processes are single-threaded and short: oversubscription keeps the cores busy
         with cf.ThreadPoolExecutor(max_workers=min(len(mods), 8)) as ex:
             futs = {ex.submit(core.run_unit, m, scratch, tier, seed, kjobs): m for m in mods}
             for f in cf.as_completed(futs):
